@@ -5,7 +5,7 @@ import os
 import numpy as np
 
 
-def make_ocr_engine_dir(path, chars, H=16, seed=0, blank_bias=6.0, wscale=0.6, masked=(), embed_num=None, embed_id=None):
+def make_ocr_engine_dir(path, chars, H=16, seed=0, blank_bias=6.0, wscale=0.6, masked=(), embed_num=None, embed_id=None, base_bias=0.0):
     """TorchScript Conv2d(3, C, (H,4), stride (1,4)): frame t depends on pixel columns [4t, 4t+4) only; all-zero
     padding decodes to blank (blank bias). Saved as <ckpt>.cpu + JSON, loadable by PytorchEngineLineOCR.__init__.
     masked: symbol indices whose logit is always -inf (a model with a restricted alphabet).
@@ -46,7 +46,8 @@ def make_ocr_engine_dir(path, chars, H=16, seed=0, blank_bias=6.0, wscale=0.6, m
             with torch.no_grad():
                 self.conv.weight.copy_(torch.randn(self.conv.weight.shape, generator=g) * wscale)
                 self.conv.bias.zero_()
-                self.conv.bias[C - 1] = blank_bias
+                self.conv.bias += base_bias                      # a common offset of all class scores (the posteriors do not depend on it)
+                self.conv.bias[C - 1] = base_bias + blank_bias
                 for m in masked:
                     self.conv.bias[m] = float('-inf')
 
